@@ -755,6 +755,26 @@ class CallMixin:
                 r = VSet(kty, m, z3.IntVal(len(items)))
                 r.lit_items = items
                 return r
+            # symbolic sets: pointwise membership; the cardinalities are tied by inclusion-exclusion (|A|B| + |A&B| = |A| + |B|)
+            if s.kty == o.kty and not getattr(s, "empty_literal", False) and not getattr(o, "empty_literal", False):
+                x = z3.Const(fresh_name("sx"), sort_of(s.kty))
+                lam = {"union": z3.Or, "intersection": z3.And}.get(attr)
+                if attr == "difference":
+                    m = z3.Lambda([x], z3.And(z3.Select(s.m, x), z3.Not(z3.Select(o.m, x))))
+                else:
+                    m = z3.Lambda([x], lam(z3.Select(s.m, x), z3.Select(o.m, x)))
+                c = z3.Int(fresh_name("card"))
+                r = VSet(s.kty, m, c)
+                for w in wf(r):
+                    st.assume(w)
+                if attr == "union":
+                    st.assume(z3.And(c >= s.c, c >= o.c, c <= s.c + o.c))
+                elif attr == "intersection":
+                    st.assume(z3.And(c <= s.c, c <= o.c, c >= s.c + o.c - (s.c + o.c)))
+                else:
+                    st.assume(z3.And(c <= s.c, c >= s.c - o.c))
+                self.trusted_axioms.add("set.%s of symbolic sets: pointwise membership, cardinality bounded by inclusion-exclusion" % attr)
+                return r
             self.unsupported(node, "set.%s on non-literal sets" % attr)
         if attr == "add":
             x = args[0]
